@@ -260,8 +260,12 @@ def _eval_flatten(chk, rid, m):
     def rule(kind, tag, **kw):
         return Record(type=K[kind], tag=tag, cssText=tag, **K, **kw)
 
+    class RL(list):
+        def rulesOfType(self, t):
+            return [r for r in self if r.type == t]
+
     def sheet(*rules):
-        sh = Sheet(cssRules=list(rules), href='h', media='m', title='t')
+        sh = Sheet(cssRules=RL(rules), href='h', media='m', title='t')
 
         def add(r):
             if getattr(r, 'tag', '') == 'poison':
@@ -278,7 +282,9 @@ def _eval_flatten(chk, rid, m):
     B = sheet(rule('COMMENT', 'bc'), rule('STYLE_RULE', 'b1'))
     D = sheet(rule('NAMESPACE_RULE', 'n'), rule('STYLE_RULE', 'd1'))
     E_ = sheet(rule('STYLE_RULE', 'e1'), rule('STYLE_RULE', 'poison'))  # flattening it is refused (HierarchyRequestErr)
-    root = sheet(rule('CHARSET_RULE', 'charset'), imp('A', 'all', A), rule('STYLE_RULE', 'r1'), imp('B', 'print', B), imp('C', 'all', None), imp('D', 'print', D), imp('E', 'all', E_), rule('STYLE_RULE', 'r2'))
+    F = sheet(rule('STYLE_RULE', 'f1'))  # the same media as B, further down: its rules must not move up into B's block
+    root = sheet(rule('CHARSET_RULE', 'charset'), imp('A', 'all', A), rule('STYLE_RULE', 'r1'), imp('B', 'print', B), imp('C', 'all', None), imp('D', 'print', D), imp('E', 'all', E_), rule('STYLE_RULE', 'r2'),
+                 imp('F', 'print', F), rule('STYLE_RULE', 'r3'))
     replaced = []
     comb = m.get('MediaCombineDisallowed._combinable')
 
@@ -287,16 +293,17 @@ def _eval_flatten(chk, rid, m):
             raise _Raise('MediaCombineDisallowed')
 
     def media_rule(text):
-        w = Record(type=K['MEDIA_RULE'], tag=f'@media {text}', cssRules=[], **K)
+        w = Record(type=K['MEDIA_RULE'], tag=f'@media {text}', cssRules=RL(), media=Record(mediaText=text), **K)
         w.add = lambda r: w.cssRules.append(r)
         return w
 
     lg = Record(info=lambda *a, **k: None, warn=lambda *a, **k: None, error=lambda *a, **k: None)
-    intr = {'css.CSSStyleSheet': lambda **k: sheet(), 'css.CSSComment': lambda cssText=None: rule('COMMENT', cssText), 'css.CSSMediaRule': media_rule,
+    cssmod = Record(CSSStyleSheet=lambda **k: sheet(), CSSComment=lambda cssText=None: rule('COMMENT', cssText), CSSMediaRule=media_rule, CSSRule=Record(**K))
+    intr = {'css': cssmod, 'css.CSSStyleSheet': cssmod.CSSStyleSheet, 'css.CSSComment': cssmod.CSSComment, 'css.CSSMediaRule': media_rule,
             'MediaCombineDisallowed.check': check, 'replaceUrls': lambda sh, rep, ignoreImportRules=False: replaced.append((sh, rep, ignoreImportRules)),
             'Replacer': lambda href: ('Replacer', href), 'log': lg, 'log.info': lg.info, 'log.warn': lg.warn, 'log.error': lg.error,
             'xml': Record(dom=Record(HierarchyRequestErr='HierarchyRequestErr'))}
-    res = Evaluator(m.get('resolveImports'), intrinsics=intr, module=m).run(sheet=root)
+    res = Evaluator(m.get('resolveImports'), intrinsics=intr, module=m, model_types=(RL,)).run(sheet=root)
     if isinstance(res, Raised):
         chk.ob(rid, INIT, 'resolveImports', 'flattening the model import tree', False, f'{res!r}')
         return
@@ -312,10 +319,11 @@ def _eval_flatten(chk, rid, m):
 
     got = tags(res)
     want = ['/* START @import "A.css" */', '/* START @import "A1.css" */', 'a1', 'a2', 'r1',
-            '/* START @import "B.css" */', ('@media print', ['bc', 'b1']), 'C', '/* START @import "D.css" */', 'D', '/* START @import "E.css" */', 'E', 'r2']
+            '/* START @import "B.css" */', ('@media print', ['bc', 'b1']), 'C', '/* START @import "D.css" */', 'D', '/* START @import "E.css" */', 'E', 'r2',
+            '/* START @import "F.css" */', ('@media print', ['f1']), 'r3']
     chk.ob(rid, INIT, 'resolveImports', "the model import tree is flattened in cascade order: @charset dropped, imported groups in place of their @import, a group with media wrapped in @media, the @import kept when the target is missing, cannot be wrapped or cannot be flattened", got == want, f'result {got}, prescribed {want}')
     reb = sorted((rep, ign) for sh, rep, ign in replaced)
-    want_reb = sorted((('Replacer', h), True) for h in ('A1.css', 'A.css', 'B.css', 'D.css'))
+    want_reb = sorted((('Replacer', h), True) for h in ('A1.css', 'A.css', 'B.css', 'D.css', 'F.css'))
     chk.ob(rid, INIT, '_resolve_import', 'the URLs of every resolved sheet are rebased once, relative to its import href, nested @import rules untouched', reb == want_reb, f'replaceUrls calls: {reb}')
 
 
